@@ -62,6 +62,11 @@ CLAIMED = {
    note="Trusted: Lean kernel; Spec/PortMemory.lean; controller-side stub written from crossbar.py; master obeys the port rules of the property. Equal-width path (plain connect) not modelled.",
    technique="Lean 4 proof (FSM/trace invariants by induction over schedules, refuting witnesses by kernel evaluation) + cycle-exact co-simulation + Lean port-memory specification evaluated on implementation runs",
    design="§6 C07"),
+ "C13": dict(
+   text="Cycle-accurate Lean model of LiteDRAMFIFO (pre/post FIFOs, LiteX width converters, _LiteDRAMFIFOCtrl, writer/reader on the DMA engine models, BYPASS/DRAM/PUMP/DRAIN FSM with Migen's last-assignment-wins multiplexing), co-simulated against the real FIFO for ratios 1..8, with/without bypass, depths 2..16 (many pointer wrap-arounds) under seven rate patterns and random port timing with stalls; the FIFO specification (Spec/FifoSpec: source stream = sink stream, read-back in write order, no write to an unread DRAM word, at most depth words held) is evaluated on the implementation; theorems for every schedule and every shape: level <= depth, pointers level apart, the write slot is never an unread slot, k-th read fetches the k-th written slot across wrap-around; the bypass FIFO's invented word is proved on the model by a witness replayed on the real FIFO (known finding); one genuine defect fixed.",
+   note="Trusted: Lean kernel; Spec/FifoSpec.lean; DRAM-side stub written from crossbar.py (commands of both ports ordered by acceptance).",
+   technique="Lean 4 proof (pointer/level invariants by induction over schedules, refuting witness by kernel evaluation) + cycle-exact co-simulation + Lean FIFO specification evaluated on implementation runs",
+   design="§6 C13"),
  "C14": dict(
    text="Cycle-accurate Lean models of the PRBS31/counter Generator, _LiteDRAMBISTGenerator and _LiteDRAMBISTChecker (composed with the DMA engine models), co-simulated against the real cores and their CSR wrappers on native and AXI ports of 8..128 bits under random port timings, cascade stalls, spurious start strobes and resets; theorems for every schedule: the generator hands exactly the run's sequence (seqAddr i, seqData i) to the DMA engine, the checker's errors register equals the number of positions whose returned word differs, which over a faithful memory is 0 without repeated addresses and k for k corrupted positions; address theorems (8-bit ports inside [base,end); wider ports inside the code's mask window; the full range claim is refuted by a Lean witness that is replayed on the real generator: known finding). The specification (Spec/BistSpec) is evaluated on the implementation's port traffic and error counts.",
    note="Trusted: Lean kernel; Spec/BistSpec.lean; CSR shims; memory returns read data in command order. AsyncFIFO CDC of the wrappers and the Pattern generator/checker are not modelled.",
